@@ -808,7 +808,7 @@ impl ExtendedCommunity {
 
             // Catch-all
 
-            _ => (OtherType(self.0[0]), OtherSubType(self.0[0]))
+            _ => (OtherType(self.0[0]), OtherSubType(self.0[1]))
         }
     }
 
